@@ -13,6 +13,33 @@ CHECKS = {
  "C17": ("worldsim", "exploration", "deterministic simulation: long seeded churn histories with an index-bound oracle (index < running peak of not-yet-dead entities)",
          "Every creation in long churn histories is checked against the running peak; found and led to the repair of the batch-deletion leak (known_findings.txt).",
          "samples histories", "DESIGN.md 4/C17"),
+ "C03": ("worldsim", "exploration", "deterministic simulation: histories that manufacture stale handles (index reused 0..n times, re-user merged or awaiting maintain), every handle-taking access path probed, reference-model oracle",
+         "Dead handles - biased to those whose index is re-occupied by an entity that has the component - are sent through get/get_mut/contains/insert/remove/entry/get_mut_or_default/lend-join get/restricted get_other(_mut)/lazy insert+remove for every storage kind; results and the occupant's state are compared with the model.",
+         "samples histories; storage kinds and access paths are swarm-chosen per run", "DESIGN.md 4/C03"),
+ "C04": ("worldsim", "exploration", "deterministic simulation, fault-free storage configuration (the strict twin of C19): seeded operation histories over all 18 storage configurations against a BTreeMap reference model",
+         "Every storage operation's return value, the mask, count, emptiness, joins, slices and per-entity lookups are compared with the model after every step.",
+         "no schedule is involved (storages are reached through &mut); the simulator contributes history generation, op-by-op refinement, minimisation, replay and the fault-free/faulty twin configuration", "DESIGN.md 4/C04"),
+ "C05": ("worldsim", "exploration", "deterministic simulation: create/insert/delete histories over 2-6 storages with swarm-chosen registration paths, reference-model comparison after every deleting and creating operation",
+         "After each deletion path (immediate, batch failing at k, delete_all, deferred at maintain, dropped builders) every storage is compared in full with the model; every new entity is checked to start empty.",
+         "samples histories and registration paths", "DESIGN.md 4/C05"),
+ "C08": ("worldsim", "exploration", "deterministic simulation with crash points: value ledger (construction/destruction of instrumented components) over full histories ending with the world dropped at a generated point",
+         "Each operation's set of destroyed values must equal the model's; values returned are accounted once; after the world is dropped (possibly mid-frame, un-merged entities, non-empty lazy queue) nothing is left alive and nothing was destroyed twice.",
+         "samples histories; Val carries no heap pointer so a double drop is observed, not UB", "DESIGN.md 4/C08"),
+ "C09": ("worldsim", "exploration", "deterministic simulation: scripted lazy closures (data) logging what they observe inside maintain, replayed on the reference model in queue order",
+         "Execution log must equal queue order with nested closures last in the same maintain, each exactly once; observations inside closures must equal the model state after merge and purge; queue empty on return.",
+         "samples histories; closure nesting depth <= 2", "DESIGN.md 4/C09"),
+ "C10": ("worldsim", "exploration", "deterministic simulation: 2-4 simulated tasks under a seeded baton scheduler (uniform / sticky / PCT / round-robin) with cfg(specs_verif) yield points inside the lock-free allocator and spurious-CAS buggify; set-based oracle; explicit schedule replay and minimisation",
+         "Handles pairwise distinct and alive for the creator, deletes of live handles succeed, joins contain what they must, post-maintain alive set = initial + created - deleted, lazy log = push order.",
+         "sequentially consistent interleavings of the segments between yield points; AtomicBitSet/SegQueue internals are atomic steps; weak memory only via the (thorough, separate) Miri batch", "DESIGN.md 4/C10"),
+ "C12": ("worldsim", "exploration", "deterministic simulation: tracked-storage histories (both wrappers over every inner kind), event channel read after every operation and compared with MUST / MUST-NOT / MAY expectations from the reference model; emission toggled",
+         "Inserted/Removed exactly and in order, Modified iff mutable access reached the caller, nothing for read-only access or while emission is off; replaying events reproduces the mask.",
+         "histories without bulk clear() (excluded by the property); Modified is checked as iff, not as a count", "DESIGN.md 4/C12"),
+ "C13": ("worldsim", "exploration", "deterministic simulation: restricted-storage joins (read, shared-write, exclusive lending) over model-generated contents with stale/dead/un-merged other-entity lookups and seeded subsets fetched mutably",
+         "Visited indices, own values, other-entity lookups, writes and Modified events are compared with the model.",
+         "sequential and lending forms here; the parallel form is exercised by joinsim when built", "DESIGN.md 4/C13"),
+ "C19": ("worldsim", "fault_enumeration", "deterministic simulation with fault injection: for each seeded history every destructor call the model predicts for every destroying operation (and world teardown) is made to panic, one execution per (operation, call) pair, caught, ledger + lookups checked, model re-synchronised narrowly, run continued under the strict oracle",
+         "No value destroyed twice, no lookup/join/slice exposes a destroyed value, world usable afterwards; all four protection mechanisms named by the property were shown to be caught when removed.",
+         "one fault armed at a time; faults keyed on value identity (hash-map drop order is per-process); fault points per history enumerated up to a cap of 48+", "DESIGN.md 4/C19"),
 }
 
 NOT_APPLICABLE = {
